@@ -55,6 +55,13 @@ def step (w : Nat) (m : WMon) : Ev → Except String WMon
   | .subDrop x =>
     if x ≠ w then .ok m else
     if registered m then .error "drop-while-registered" else .ok { m with dropped := true }
+  -- stream / future ends (C19/C20): cancel-read/cancel-write and drop-readable/drop-writable
+  | .ch .scw [x, _] | .ch .scr [x, _] | .ch .fcw [x, _] | .ch .fcr [x, _] =>
+    if x ≠ w then .ok m else
+    if registered m then .error "cancel-while-registered" else .ok m
+  | .ch .sdw [x] | .ch .sdr [x] | .ch .fdw [x] | .ch .fdr [x] =>
+    if x ≠ w then .ok m else
+    if registered m then .error "drop-while-registered" else .ok { m with dropped := true }
   | _ => .ok m
 
 def run (w : Nat) (m : WMon) : List Ev → Except String WMon
